@@ -163,12 +163,27 @@ for periodic in (None, np.array([0])):
                               rng=np.random.default_rng(6))
     tag = 'NautilusBound[periodic={}]'.format(periodic is not None)
     s = b.sample(N)
+    # the same bound sampled through a pool: counters of both levels merged
+    from nautilus.pool import NautilusPool
+    bp = NautilusBound.compute(pts, ll, np.quantile(ll, 0.6), np.log(0.02),
+                               n_networks=1, periodic=periodic,
+                               rng=np.random.default_rng(6))
+    pool = NautilusPool(2)
+    try:
+        sp = bp.sample(N, pool=pool)
+    finally:
+        pool.pool.terminate()
     lo, hi = np.zeros(nd), np.ones(nd)
     ref, frac, tried = brute(b.contains, lo, hi, N, np.random.default_rng(7))
     two_sample(tag, s, ref, lo, hi, 12)
     volume(tag, b.log_v, [(b.n_sample, b.n_reject),
                           (b.outer_bound.n_sample, b.outer_bound.n_reject)],
            frac, tried, lo, hi)
+    two_sample(tag + '/pool', sp, ref, lo, hi, 12)
+    volume(tag + '/pool', bp.log_v, [
+        (bp.n_sample, bp.n_reject),
+        (bp.outer_bound.n_sample, bp.outer_bound.n_reject)], frac, tried, lo,
+        hi)
 print(json.dumps(dict(violations=bad[:8], tests=len(seen),
                       weakest=sorted(seen, key=lambda d: d.get(
                           'p', 1.0) if 'p' in d else 2 * stats.norm.sf(abs(
